@@ -751,7 +751,9 @@ func (ex *Exec) sliceOp(in *ssa.Slice) Val {
 func (ex *Exec) substr(x Val, lo, hi string, t types.Type) Val {
 	em := ex.em
 	r := em.newConst("sub", sStr)
-	em.emit(fmt.Sprintf("(assert (= (slen %s) (- %s %s)))", r, hi, lo))
+	// the length fact only makes sense where the slice expression is evaluated (lo <= hi was checked there):
+	// stated under the current path condition, not globally
+	em.assume(ex.curPC, fmt.Sprintf("(= (slen %s) (- %s %s))", r, hi, lo))
 	em.emit(fmt.Sprintf("(assert (forall ((k Int)) (! (=> (and (<= 0 k) (< k (- %s %s))) (= (sat %s k) (sat %s (+ %s k)))) :pattern ((sat %s k)))))", hi, lo, r, x.E, lo, r))
 	return Val{E: r, S: sStr, T: t}
 }
@@ -923,7 +925,22 @@ func (ex *Exec) instr(in ssa.Instruction) {
 		ex.set(i, ex.rangeInit(i))
 	case *ssa.Next:
 		ex.set(i, ex.rangeNext(i))
-	case *ssa.MakeChan, *ssa.Send, *ssa.Select, *ssa.Go:
+	case *ssa.Select:
+		if i.Blocking {
+			ex.unsup("blocking select")
+		}
+		// select with a default case: which case fires is a nondeterministic choice (-1 = default)
+		idx := ex.freshVal("sel_idx", types.Typ[types.Int])
+		em.emit(fmt.Sprintf("(assert (and (<= (- 1) %s) (< %s %d)))", idx.E, idx.E, len(i.States)))
+		tup := []Val{idx, ex.freshVal("sel_ok", types.Typ[types.Bool])}
+		for _, s := range i.States {
+			if s.Dir == types.RecvOnly {
+				tup = append(tup, ex.freshVal("sel_recv", s.Chan.Type().Underlying().(*types.Chan).Elem()))
+			}
+		}
+		em.Assumed["non-blocking select is a nondeterministic choice between its cases and default"] = true
+		ex.set(i, Val{Tuple: tup, T: i.Type()})
+	case *ssa.MakeChan, *ssa.Send, *ssa.Go:
 		ex.unsup("concurrency instruction %T", in)
 	case *ssa.SliceToArrayPointer, *ssa.MultiConvert:
 		ex.unsup("instruction %T", in)
